@@ -271,15 +271,13 @@ def cases(tier, rng):
         sizes = [rng.choice([2 ** 31 - 1, 2 ** 31 + 3, 2 ** 32 - 5, 2 ** 32, 2 ** 32 + 9, 2 ** 33 + 1, 7, 1000]) for _ in range(nch)]
         recs, ivs = [], []
         for cidx, sz in enumerate(sizes):
-            pts = set()
-            for base in (0, sz // 2, sz - 12, 2 ** 31 - 4, 2 ** 32 - 4):
-                if 0 <= base and base + 10 <= sz and rng.random() < 0.5:
-                    pts.update(rng.sample(range(base, base + 10), 2))
-            pts = sorted(pts)
-            pts = pts[:len(pts) // 2 * 2]
-            for a, b in zip(pts[0::2], pts[1::2]):
-                recs.append([cidx, a, b, rng.choice([1, 2, 5, -3])])
-                ivs.append([cidx, max(0, a - 2), min(sz, b + 3)])
+            last = 0
+            for base in sorted({0, sz // 2, sz - 12, 2 ** 31 - 4, 2 ** 32 - 4}):      # short records only: rows are expanded
+                if base >= last and base + 10 <= sz and rng.random() < 0.5:
+                    a, b = sorted(rng.sample(range(base, base + 10), 2))
+                    recs.append([cidx, a, b, rng.choice([1, 2, 5, -3])])
+                    ivs.append([cidx, max(0, a - 2), min(sz, b + 3)])
+                    last = base + 10
         yield {"op": "big", "sizes": sizes, "recs": recs, "ivs": ivs[:6], "kind": "int"}
     # 2e. narrow value dtypes with python / NumPy scalar operands on either side (dtype and values as dense NumPy gives them)
     SC = [("py", 1), ("py", 200), ("py", -3), ("py", 0.5), ("int64", 200), ("int64", 3), ("int64", -50), ("float64", 0.1), ("float64", 3.0),
@@ -910,9 +908,12 @@ def oracle(c):
             dense[n] = a
         res = [_arr_obs(dense, names)]
         for f, side, kind, v in c["ops"]:
-            k = _scalar(kind, v)
-            with np.errstate(all="ignore"):
-                res.append(_arr_obs({n: (_BIN[f](k, dense[n]) if side == "l" else _BIN[f](dense[n], k)) for n in names}, names))
+            try:
+                k = _scalar(kind, v)
+                with np.errstate(all="ignore"):
+                    res.append(_arr_obs({n: (_BIN[f](k, dense[n]) if side == "l" else _BIN[f](dense[n], k)) for n in names}, names))
+            except OverflowError:
+                return SKIP        # dense NumPy itself rejects the operand (python int out of bounds for the dtype)
         return {"results": res}
     if op == "alias":
         sizes = c["sizes"]
